@@ -126,13 +126,15 @@ def _strip_comments(text):
     return "\n".join(line.split("--")[0] for line in text.split("\n"))
 
 
-def grep_forbidden(prop=None):
+def grep_forbidden(prop=None, modules=None):
     """forbidden constructs in the Lean sources of one property (its own Model/Props/Generated/
     Drivers files plus the shared Wire/Val models); all files when prop is None"""
     hits = []
     files = list((LEAN / "Klong").rglob("*.lean")) + list((LEAN / "Drivers").rglob("*.lean"))
     if prop:
         files = [f for f in files if f.name.startswith(prop) or f.name in ("Wire.lean", "Val.lean")]
+        if modules is not None:   # proof files only when they are among the audited modules
+            files = [f for f in files if f.parent.name != "Props" or f"Klong.Props.{f.stem}" in modules]
     for f in files:
         for i, line in enumerate(_strip_comments(f.read_text()).split("\n"), 1):
             if FORBIDDEN.search(line):
